@@ -1,7 +1,7 @@
 SPECIFICATION Spec
 CONSTANTS
   Dims <- DimsQuick
-  Schemes = {"contiguous", "gaps", "reversed", "scattered"}
+  Schemes = {"contiguous", "gaps", "reversed", "scattered", "offset"}
 INVARIANT IdsInjective
 INVARIANT InteriorNodesHaveEightElements
 INVARIANT BoundaryCount
